@@ -25,6 +25,7 @@ type Spec struct {
 	ThoroughFloors   map[string]int64
 	HangViolation    *regexp.Regexp // watchdog dump matching this is a violation, else inconclusive
 	MaxSamples       int
+	CaseTimeoutS     int
 	LevelText        string
 	LevelNote        string
 	Technique        string
@@ -54,7 +55,56 @@ func (s Spec) hangIsViolation(dump string) bool {
 	return s.HangViolation != nil && s.HangViolation.MatchString(dump)
 }
 
+var routeAssumptions = []string{
+	"fake Temporal shards follow stream_sender.go / stream_receiver.go / executable_task_tracker.go of server v1.31.2 (single-stack tracker; inclusive low watermark = first unprocessed task id, else the high watermark; nothing acked before the first message; sources never lower their watermark and always fill RawTaskInfo)",
+	"in-memory stream pair with gRPC semantics (half-close, cancel, status on handler return, bounded window as flow control); every message is deep-copied at the boundary",
+	"virtual time (testing/synctest): the proxy's own tickers/back-offs run unmodified; thread-level interleavings inside a virtual instant are sampled, not enumerated",
+	"tiered-priority watermarks are not modelled",
+}
+
 var specs = map[string]Spec{
+	"C01": {
+		Engine: "routesim", Run: "^TestRoute$", Race: true,
+		QuickShards: 16, ThoroughShards: 16, QuickWatchdog: 8 * time.Minute, ThoroughWatchdog: 60 * time.Minute,
+		MaxProcs: []int{16, 4, 2, 1},
+		Level:     "exploration",
+		LevelText: "The real routing handlers (sender, receiver, shard manager, ring) run between fake Temporal shards in virtual time under generated workloads (shard-count pairs, batch shapes, idle/slow/late/never-acking/non-reading targets, late connections, probe-induced pre-emption); an online oracle over the boundary event log asserts at every acknowledgement sent to a source that every received task below it was confirmed by its target stream. Sampling of interleavings, not enumeration; -race on.",
+		LevelNote: "Trusted: fake Temporal peers and the in-memory gRPC stream model (small, written from the server sources, cross-checked over real gRPC by the wire engine); the oracle sees only boundary events.",
+		Technique: "runtime monitor: online trace oracle (ack-implies-confirmed) over recorded boundary events of the real handlers, virtual-time stress with probe-induced delays, race detector",
+		DesignRef: "DESIGN.md §4 C01",
+		Rule:      "scenarios generated from VERIF_SEED (fixed list: shard-count pairs x batch scripts x target behaviours); a case is non-trivial when at least one acknowledgement above the first task id was checked or a task was delivered; distinct = distinct interleaving signatures (hash of the (kind,stream) sequence of boundary events)",
+		Assumptions: routeAssumptions,
+		QuickFloors: map[string]int64{"src_acks_nonvacuous": 100, "ev_TGT_RECV": 1000},
+		MaxSamples:  2,
+	},
+	"C02": {
+		Engine: "routesim", Run: "^TestRoute$", Race: true,
+		QuickShards: 16, ThoroughShards: 16, QuickWatchdog: 8 * time.Minute, ThoroughWatchdog: 60 * time.Minute,
+		MaxProcs: []int{16, 4, 2, 1},
+		Level:     "exploration",
+		LevelText: "Same executions as C01 with the delivery oracle: every task marker handed over by a source must appear exactly once, on the stream of the shard that owns its workflow (harness-side farm32), payload equal after restoring the two id fields, in source order per (source,target); per target stream ids and watermarks must satisfy what Temporal's task tracker requires (a tracker model in the fake target additionally reports every message or task it would drop); at quiescence of fair scenarios every task must have been delivered.",
+		LevelNote: "Trusted: fake peers, stream model, the harness's own owner computation (farm.Fingerprint32 of namespaceID_workflowID mod n + 1). Tasks without RawTaskInfo are outside the domain (the 1.31 sender always fills it).",
+		Technique: "runtime monitor: exactly-once / ownership / ordering / well-formedness oracle over recorded boundary events + Temporal task-tracker reference model at the fake target",
+		DesignRef: "DESIGN.md §4 C02",
+		Rule:      "as C01; non-trivial = at least one task delivered; distinct = distinct interleaving signatures",
+		Assumptions: routeAssumptions,
+		QuickFloors: map[string]int64{"tasks_delivered": 1000, "ev_TGT_RECV": 1000},
+		MaxSamples:  2,
+	},
+	"C03": {
+		Engine: "routesim", Run: "^TestRoute$", Race: true,
+		QuickShards: 16, ThoroughShards: 16, QuickWatchdog: 8 * time.Minute, ThoroughWatchdog: 60 * time.Minute,
+		MaxProcs: []int{16, 4, 2, 1},
+		Level:     "exploration",
+		LevelText: "Same executions; safety oracle online (acknowledgements per source-stream incarnation never decrease, never exceed the largest exclusive high watermark handed over so far) and bounded progress on the virtual clock for fair scenarios: after the last confirmation the source must receive an acknowledgement equal to its final watermark within 2*P+12 virtual seconds (P = the source's watermark period), else the case is a violation with the event log as witness.",
+		LevelNote: "'Eventually' is decided only as bounded progress in virtual time under the fake peers' fairness (targets ack every period, source repeats its watermark); an unbounded eventuality is out of reach of any finite run.",
+		Technique: "runtime monitor: monotonicity/bound oracle online + bounded-liveness check on virtual time (testing/synctest) over recorded boundary events",
+		DesignRef: "DESIGN.md §4 C03",
+		Rule:      "as C01; non-trivial = at least one acknowledgement above the first task id checked; distinct = distinct interleaving signatures",
+		Assumptions: routeAssumptions,
+		QuickFloors: map[string]int64{"src_acks_checked": 1000},
+		MaxSamples:  2,
+	},
 	"C05": {
 		Engine: "ringmodel", Run: "^TestRing$", Race: false,
 		QuickShards: 16, ThoroughShards: 16, QuickWatchdog: 5 * time.Minute, ThoroughWatchdog: 40 * time.Minute,
